@@ -58,8 +58,14 @@ constexpr size_t PADLEN = 2200; // statement record > half of the 4096-byte queu
 
 struct SmallQueueOptions
 {
+#if defined(VL_BOUNDED)
+  // second build of the harness: a bounded blocking queue (stop/exit must also drain what the backend has already decoded)
+  static constexpr quill::QueueType queue_type = quill::QueueType::BoundedBlocking;
+  static constexpr size_t initial_queue_capacity = 8192;
+#else
   static constexpr quill::QueueType queue_type = quill::QueueType::UnboundedBlocking;
   static constexpr size_t initial_queue_capacity = 4096;
+#endif
   static constexpr uint32_t blocking_queue_retry_interval_ns = 800;
   static constexpr size_t unbounded_queue_max_capacity = 2ull * 1024u * 1024u * 1024u;
   static constexpr quill::HugePagesPolicy huge_pages_policy = quill::HugePagesPolicy::Never;
@@ -298,12 +304,14 @@ void do_stop(int t)
 void do_log(int t)
 {
   int const n = ++g_nlog[t];
+#if !defined(VL_BOUNDED)
   if (n > 1 && g_scn->q >= 2)
   {
     if (g_scn->q == 3) nap(400 + static_cast<unsigned>(g_scn->sleep_us > 0 ? g_scn->sleep_us : 0));
     size_t const cap = FrontendT::get_thread_local_queue_capacity();
     if (cap >= 2048) FrontendT::shrink_thread_local_queue(cap / 2);
   }
+#endif
   emit(EV_LOGCALL, t, n);
   LOG_INFO(g_logger, "s {} {}{}", t, n, std::string_view{g_pad});
   emit(EV_LOGRET, t, n);
